@@ -11,4 +11,5 @@ let table = [
   ("recover", Model.entry_recover);
   ("guards", Model.entry_guards);
   ("p2precv", Model.entry_p2precv);
+  ("dispatch", Model.entry_dispatch);
 ]
